@@ -23,10 +23,10 @@ from .probes import WrapKernel, read_wrap_logs
 X = np.array([[1.0, -1.0], [1.0, -0.5], [1.0, 0.0], [1.0, 0.4], [1.0, 0.9], [1.0, 1.5]], np.float32)
 Y = np.array([0.3, 0.1, 0.9, 1.4, 1.2, 2.3], np.float32)
 
-PARAMS = ["b", "sigma_transformed", "m"]          # sampled parameters (position keys)
-SIZES = [2, 1, 1]
-DERIVED = ["sigma", "mean", "snr", "_model_log_prob", "_model_log_lik", "_model_log_prior"]
-DSIZES = [1, 6, 1, 1, 1, 1]
+PARAMS = PARAMS1 = ["b", "sigma_transformed", "m"]          # sampled parameters (position keys)
+SIZES = SIZES1 = [2, 1, 1]
+DERIVED = DERIVED1 = ["sigma", "mean", "snr", "_model_log_prob", "_model_log_lik", "_model_log_prior"]
+DSIZES = DSIZES1 = [1, 6, 1, 1, 1, 1]
 
 
 def build_liesel_model():
@@ -39,6 +39,51 @@ def build_liesel_model():
     y = lsl.obs(jnp.asarray(Y), lsl.Dist(tfd.Normal, loc=mean, scale=sigma), name="y")
     sigma.transform(tfb.Exp())
     return lsl.GraphBuilder().add(y, snr).build_model()
+
+
+# second Liesel model: a weak variable that has a distribution of its own (a distribution evaluated at a derived
+# node) and a default-transformed variable whose bijector depends on another sampled parameter
+Y2 = np.array([0.4, 1.1, 0.8, 1.9, 1.3], np.float32)
+PARAMS2 = ["a", "bb", "hi_transformed", "u_transformed"]
+SIZES2 = [1, 1, 1, 1]
+DERIVED2 = ["s", "hi", "u", "_model_log_prob", "_model_log_lik", "_model_log_prior"]
+DSIZES2 = [1, 1, 1, 1, 1, 1]
+
+
+def build_liesel_model2():
+    a = lsl.param(jnp.float32(0.2), lsl.Dist(tfd.Normal, loc=0.0, scale=1.0), name="a")
+    bb = lsl.param(jnp.float32(-0.1), lsl.Dist(tfd.Normal, loc=0.0, scale=1.0), name="bb")
+    s_ = lsl.Var(lsl.Calc(lambda a, b: a + b, a, bb), lsl.Dist(tfd.Normal, loc=0.0, scale=0.5), name="s")
+    hi = lsl.param(jnp.float32(2.0), lsl.Dist(tfd.Gamma, concentration=4.0, rate=2.0), name="hi")
+    u = lsl.param(jnp.float32(0.8), lsl.Dist(tfd.Uniform, low=0.0, high=hi), name="u")
+    y = lsl.obs(jnp.asarray(Y2), lsl.Dist(tfd.Normal, loc=lsl.Calc(lambda a, u: a + u, a, u), scale=1.0), name="y")
+    hi.transform(tfb.Exp())
+    u.transform()            # default event-space bijector: Sigmoid(low, high) with the *current* high
+    return lsl.GraphBuilder().add(y, s_).build_model()
+
+
+def closed_form(model_kind, after):
+    """Derived quantities in float64 from the recorded parameters, without any liesel object."""
+    import scipy.stats as st
+    f = np.asarray(after, np.float64)
+    if model_kind == "liesel2":
+        a, bb, ht, ut = f
+        hi = np.exp(ht)
+        sg = 1.0 / (1.0 + np.exp(-ut))
+        u = hi * sg
+        ll = st.norm(a + u, 1.0).logpdf(Y2.astype(np.float64)).sum()
+        lpr = (st.norm(0, 1).logpdf(a) + st.norm(0, 1).logpdf(bb) + st.gamma(4.0, scale=0.5).logpdf(hi) + ht
+               + np.log(sg) + np.log1p(-sg))
+        lp = ll + lpr + st.norm(0, 0.5).logpdf(a + bb)
+        return [a + bb, hi, u, lp, ll, lpr]
+    b, stt, m = f[0:2], f[2], f[3]
+    sig = np.exp(stt)
+    mean = X.astype(np.float64) @ b + m
+    ll = st.norm(mean, sig).logpdf(Y.astype(np.float64)).sum()
+    lpr = st.norm(0, 3).logpdf(b).sum() + st.norm(0, 1).logpdf(m) + st.invgamma(2.0, scale=1.0).logpdf(sig) + stt
+    if model_kind == "dict":
+        return [ll + lpr]
+    return [sig] + list(mean) + [b[0] / sig, ll + lpr, ll, lpr]
 
 
 def liesel_flat(model, state, names):
@@ -114,6 +159,9 @@ SEQS = {
     "rw_mh_rw": [("rw", ["m"]), ("mh", ["b"]), ("rw", ["sigma_transformed"])],
     "gibbs_nuts": [("gibbs", ["m"]), ("nuts", ["sigma_transformed", "b"])],
     "hmc_rw": [("hmc", ["b"]), ("rw", ["m"]), ("iwls", ["sigma_transformed"])],
+    # for the second Liesel model
+    "rw_hi_u_ab": [("rw", ["hi_transformed"]), ("rw", ["u_transformed"]), ("iwls", ["a", "bb"])],
+    "nuts_u_rw": [("rw", ["a"]), ("nuts", ["hi_transformed", "bb"]), ("rw", ["u_transformed"])],
 }
 IDENTS = ["zz_first", "mm_second", "aa_third"]     # sorted order differs from configured order
 
@@ -121,9 +169,11 @@ IDENTS = ["zz_first", "mm_second", "aa_third"]     # sorted order differs from c
 def run(seq="iwls_rw_gibbs", model_kind="liesel", chains=2, seed=0, custom_idents=True,
         schedule=((1, 4), (3, 2), (4, 4))):
     spec = SEQS[seq]
-    npar, nder = sum(SIZES), (sum(DSIZES) if model_kind == "liesel" else 1)
-    if model_kind == "liesel":
-        user_model = build_liesel_model()
+    PARAMS, SIZES, DERIVED, DSIZES = ((PARAMS2, SIZES2, DERIVED2, DSIZES2) if model_kind == "liesel2"
+                                      else (PARAMS1, SIZES1, DERIVED1, DSIZES1))
+    npar, nder = sum(SIZES), (sum(DSIZES) if model_kind.startswith("liesel") else 1)
+    if model_kind.startswith("liesel"):
+        user_model = build_liesel_model2() if model_kind == "liesel2" else build_liesel_model()
         interface = gs.LieselInterface(user_model)
         init = user_model.state
 
@@ -164,7 +214,7 @@ def run(seq="iwls_rw_gibbs", model_kind="liesel", chains=2, seed=0, custom_ident
         offs[n] = list(range(off + 1, off + s + 1))
         off += s
     traces = []
-    recomp_model = build_liesel_model() if model_kind == "liesel" else None
+    recomp_model = (build_liesel_model2() if model_kind == "liesel2" else build_liesel_model()) if model_kind.startswith("liesel") else None
     for c in range(chains):
         per_kernel = {}
         for ki in range(len(wraps)):
@@ -184,6 +234,7 @@ def run(seq="iwls_rw_gibbs", model_kind="liesel", chains=2, seed=0, custom_ident
                        "after": [fstr(np.float32(x)) for x in after],
                        "derived": [fstr(np.float32(x)) for x in derived]}
                 rec["recomputed"] = recompute(model_kind, recomp_model, after)
+                rec["closed_form"] = [fstr(x) for x in closed_form(model_kind, after)]
                 ev.append(rec)
         hdr = {"N": npar, "own": [sorted(sum((offs[n] for n in keys), [])) for _, keys in spec],
                "order": list(range(1, len(spec) + 1)), "seq": seq, "model": model_kind, "chain": c,
@@ -197,6 +248,13 @@ def run(seq="iwls_rw_gibbs", model_kind="liesel", chains=2, seed=0, custom_ident
 
 def recompute(model_kind, model, after):
     """Derived quantities from scratch on the user's own model (no goose interface)."""
+    if model_kind == "liesel2":
+        model.auto_update = False
+        for n, v in zip(PARAMS2, after):
+            model.vars[n].value = jnp.float32(v)
+        model.update()
+        return [fstr(np.float32(x)) for n in DERIVED2 for x in np.ravel(np.asarray(
+            model.nodes[n].value if n in model.nodes else model.vars[n].value, np.float32))]
     b, st, m = np.float32(after[0:2]), np.float32(after[2]), np.float32(after[3])
     if model_kind == "liesel":
         model.auto_update = False
